@@ -5,6 +5,9 @@ package c10
 import (
 	"encoding/json"
 	"fmt"
+	"regexp"
+	"strconv"
+	"strings"
 	"sync"
 	"testing"
 
@@ -319,7 +322,16 @@ func TestReplay(t *testing.T) {
 		t.Fatal(err)
 	}
 	var err error
-	if in.TwoWay {
+	if in.Tree == nil {
+		// saved by the fuzz target: a raw text, compared route versus route
+		dAst, dNfa, e := routes(in.Pattern)
+		if e != nil {
+			t.Skipf("text is not accepted by both routes: %v", e)
+		}
+		if w, bad := ref.DiffDFA(dAst, dNfa); bad {
+			err = fmt.Errorf("pattern %q: followpos DFA and NFA-route DFA differ on %q", in.Pattern, w)
+		}
+	} else if in.TwoWay {
 		err = checkTwoWay(in.Tree)
 	} else {
 		err = checkThreeWay(in.Tree)
@@ -327,4 +339,81 @@ func TestReplay(t *testing.T) {
 	if err != nil {
 		rec.Fail(t, "pattern", in, "%v", err)
 	}
+}
+
+// ---------- native fuzz target (thorough tier; `go test -fuzz`) ----------
+
+var fuzzCountRe = regexp.MustCompile(`\{\s*(\d+)\s*(?:,\s*(\d*)\s*)?\}`)
+
+// cheap reports whether the text cannot multiply into a large automaton (repetition counts, wide escapes).
+func cheap(s string) bool {
+	if len(s) > 32 || strings.Contains(s, `\p`) || strings.Contains(s, `\P`) {
+		return false
+	}
+	if regexp.MustCompile(`\\x[0-9A-F]{5,8}`).MatchString(s) {
+		return false
+	}
+	product := 1
+	for _, m := range fuzzCountRe.FindAllStringSubmatch(s, -1) {
+		for _, g := range m[1:] {
+			if len(g) > 2 {
+				return false
+			}
+			if v, err := strconv.Atoi(g); err == nil && v > 1 {
+				if v > 6 {
+					return false
+				}
+				product *= v
+			}
+		}
+	}
+	return product <= 40
+}
+
+// FuzzRoutes submits arbitrary short texts (coverage guided): whenever both routes accept a text, the two automata
+// must accept the same language (route versus route; no reference semantics is needed for that half of the property).
+func FuzzRoutes(f *testing.F) {
+	for _, s := range []string{`ab?c`, `a*b*`, `(a|b?)c*`, `a{0}`, `(a*b){2}`, `(ab|a)(bc|c)?`, `[a-c]+?x{1,2}`, `\x41[[:digit:]]`, `(a|)b`, `a^b`, `(x|y$)z`, `\d\w`} {
+		f.Add(s)
+	}
+	f.Fuzz(func(t *testing.T, s string) {
+		if !cheap(s) {
+			return
+		}
+		var dAst, dNfa *auto.DFA
+		var e1, e2 error
+		if perr := rec.Guard(func() {
+			var a *rast.AST
+			var n *auto.NFA
+			a, e1 = rast.Parse(s)
+			n, e2 = nfa.Parse(s)
+			if e1 == nil && e2 == nil {
+				dAst, dNfa = a.ToDFA(), n.ToDFA()
+			}
+		}); perr != nil {
+			// crashes are C14's subject; nothing to compare
+			return
+		}
+		if dAst == nil || dNfa == nil {
+			return
+		}
+		if nulTolerated() {
+			for _, d := range []*auto.DFA{dAst, dNfa} {
+				for _, a := range d.Symbols() {
+					if a == 0 {
+						return // listed finding: a set containing code point 0 also matches the empty string on the NFA route
+					}
+				}
+			}
+			if strings.ContainsAny(s, ".") || strings.Contains(s, `\D`) || strings.Contains(s, `\S`) || strings.Contains(s, `\W`) || strings.Contains(s, "ascii") || strings.Contains(s, "cntrl") || strings.Contains(s, `\x0`) {
+				return
+			}
+		}
+		if w, bad := ref.DiffDFA(dAst, dNfa); bad {
+			msg := fmt.Sprintf("pattern %q: followpos DFA and NFA-route DFA differ on %q", s, w)
+			rec.SetTest("FuzzRoutes")
+			rec.WriteReplay("text", input{Pattern: s, TwoWay: true}, msg)
+			t.Fatalf("%s", msg)
+		}
+	})
 }
